@@ -58,7 +58,9 @@ def schedule(inputs):
                       float(inputs.get('t0', 0.0)), 'solver model'))
         for rep in (2, 4):
             p2 = dict(p, repeat=max(p['repeat'], rep))
-            for g in (p['min_delay_ms'], p['max_delay_ms'] - 1):
+            # the draws are clamped into the range the code actually requests: values beyond the legal window only
+            # survive when the code asks for a wider range than the property allows
+            for g in (p['min_delay_ms'], p['max_delay_ms'] - 1, p['max_delay_ms'], p['upper_delay_ms'] - 1, 10 ** 6):
                 cands.append((p2, 0, g, 0.0, 'solver model, more repeats'))
     # neighbours: the parameter sets the code itself defines, extreme draws
     import dataclasses
@@ -66,7 +68,7 @@ def schedule(inputs):
         real = dataclasses.asdict(getattr(nt, nm))
         for i, g in itertools.product((0, real['max_initial_delay_ms']),
                                       (real['min_delay_ms'], (real['min_delay_ms'] + real['max_delay_ms']) // 2,
-                                       real['max_delay_ms'] - 1)):
+                                       real['max_delay_ms'] - 1, real['max_delay_ms'], real['upper_delay_ms'] - 1, 10 ** 6, -1)):
             cands.append((real, i, g, 1000.0, nm))
     tried = 0
     for params, init, gap, t0, origin in cands:
